@@ -248,7 +248,34 @@ func oracleCLI(c CLICase) error {
 		}
 		ok := accepts(f.Content, flagValue(c.Flags, "--dialect"), has(c.Flags, "--strict"))
 		if c.Cmd == "lint" {
-			return nil // lint of direct text reports under a synthetic name; its verdict is covered by the file mode
+			// the verdict on a text does not depend on how the text is handed over: the same flags with the
+			// text in a file must end with the same kind of exit status (zero / non-zero)
+			fdir, err := os.MkdirTemp(workRoot, "lint-")
+			if err != nil {
+				return fmt.Errorf("HARNESS: %v", err)
+			}
+			defer os.RemoveAll(fdir)
+			if err := os.WriteFile(filepath.Join(fdir, "in.sql"), []byte(f.Content), 0o644); err != nil {
+				return fmt.Errorf("HARNESS: %v", err)
+			}
+			rf, err := runCmd(fdir, "", binPath, append(append([]string{"lint"}, c.Flags...), "in.sql")...)
+			if err != nil {
+				return fmt.Errorf("HARNESS: %v", err)
+			}
+			if (rf.code == 0) != (r.code == 0) {
+				return fmt.Errorf("gosqlx lint %s exits with status %d for the text %q in a file but with status %d for the same text given on %s\n file run: %s\n %s run: %s", strings.Join(c.Flags, " "), rf.code, clip(f.Content), r.code, c.Mode, clip(rf.stdout+rf.stderr), c.Mode, clip(r.stdout+r.stderr))
+			}
+			return nil
+		}
+		if of := flagValue(c.Flags, "--output-format"); c.Cmd == "validate" && c.Mode == "stdin" && (of == "json" || of == "sarif") {
+			// the report of a stdin run is well-formed and names the input, not a scratch file of the command
+			var v interface{}
+			if err := json.Unmarshal([]byte(r.stdout), &v); err != nil {
+				return fmt.Errorf("gosqlx validate %s on stdin: the %s report is not well-formed JSON: %v\n %s", strings.Join(c.Flags, " "), of, err, clip(r.stdout))
+			}
+			if strings.Contains(r.stdout, "gosqlx-stdin") || strings.Contains(r.stdout, os.TempDir()+"/") {
+				return fmt.Errorf("gosqlx validate %s on stdin: the %s report names a temporary file instead of the input: %s", strings.Join(c.Flags, " "), of, clip(r.stdout))
+			}
 		}
 		if (r.code == 0) != ok {
 			return fmt.Errorf("gosqlx %s %s with the text %q given on %s exits with status %d, but the library %s it\n stderr: %s", c.Cmd, strings.Join(c.Flags, " "), clip(f.Content), c.Mode, r.code,
@@ -560,6 +587,24 @@ func TestCLIVerdict(t *testing.T) {
 			}
 			for i := range c.Files {
 				c.Files[i].Content, vec[i] = genLintContent(rt)
+			}
+			if rapid.IntRange(0, 2).Draw(rt, "lint_direct") == 0 {
+				// the same text on stdin or as the argument, sometimes with the security scan and a text it objects to
+				c.Mode = rapid.SampledFrom([]string{"stdin", "inline"}).Draw(rt, "lintmode")
+				c.Files, vec = c.Files[:1], vec[:1]
+				if rapid.Bool().Draw(rt, "lint_security") {
+					c.Flags = append(c.Flags, "--security")
+					if rapid.Bool().Draw(rt, "lint_injection") {
+						c.Files[0].Content = "SELECT * FROM users WHERE name = 'a' OR 1=1"
+						vec[0] = "lint_injection"
+					}
+				}
+				if first := c.Files[0].Content; c.Mode == "inline" && (first == "" || !(first[0] >= 'A' && first[0] <= 'Z' || first[0] >= 'a' && first[0] <= 'z')) {
+					c.Mode = "stdin"
+				}
+				if c.Mode == "stdin" && c.Files[0].Content == "" {
+					c.Mode = ""
+				}
 			}
 		case "parse":
 			c.Files = c.Files[:1]
